@@ -3,10 +3,11 @@
 cd "$(dirname "$0")" || exit 2
 set -e
 java -version 2>&1 | head -1
+out=$(mktemp)
 for m in spec/*.tla; do
     case "$m" in *_TTrace*) continue;; esac
-    tla-sany "$m" > /tmp/sany.$$ 2>&1 || { cat /tmp/sany.$$; rm -f /tmp/sany.$$; echo "SANY failed on $m"; exit 2; }
+    (cd spec && tla-sany "$(basename "$m")") > "$out" 2>&1 || { cat "$out"; rm -f "$out"; echo "SANY failed on $m"; exit 2; }
 done
-rm -f /tmp/sany.$$
+rm -f "$out"
 /venv/bin/python -c "import ply, renew, hypothesis, prophy, prophyc; print('python ok', prophy.__file__)"
 echo "setup ok"
